@@ -340,22 +340,75 @@ func (e *Engine) Structural() []*Obligation {
 
 // nonBlockingCycle reports whether the loop has a cycle through its head
 // that contains no blocking operation.
+// blockingInstr: the instruction waits (channel receive, select without default, sleep), or calls a function
+// of the program every path of which waits before it returns (a helper such as waitOrDone(ctx, d)).
+func blockingInstr(in ssa.Instruction, depth int) bool {
+	switch x := in.(type) {
+	case *ssa.Select:
+		return x.Blocking
+	case *ssa.UnOp:
+		return x.Op.String() == "<-"
+	case *ssa.Call:
+		sc := x.Call.StaticCallee()
+		if sc == nil {
+			return false
+		}
+		if sc.String() == "time.Sleep" {
+			return true
+		}
+		if depth < 3 && sc.Blocks != nil && alwaysBlocks(sc, depth+1) {
+			return true
+		}
+	}
+	return false
+}
+
+// alwaysBlocks: no path from the entry of fn to a return avoids every blocking instruction.
+func alwaysBlocks(fn *ssa.Function, depth int) bool {
+	if len(fn.Blocks) == 0 {
+		return false
+	}
+	blocksIn := func(b *ssa.BasicBlock) bool {
+		for _, in := range b.Instrs {
+			if blockingInstr(in, depth) {
+				return true
+			}
+		}
+		return false
+	}
+	seen := map[*ssa.BasicBlock]bool{}
+	var free func(b *ssa.BasicBlock) bool // a return is reachable from b without blocking
+	free = func(b *ssa.BasicBlock) bool {
+		if seen[b] {
+			return false
+		}
+		seen[b] = true
+		if blocksIn(b) {
+			return false
+		}
+		if len(b.Succs) == 0 {
+			_, isRet := b.Instrs[len(b.Instrs)-1].(*ssa.Return)
+			return isRet
+		}
+		for _, s := range b.Succs {
+			if free(s) {
+				return true
+			}
+		}
+		return false
+	}
+	return !free(fn.Blocks[0])
+}
+
 func nonBlockingCycle(li *loopInfo) bool {
+	// a range over a slice, array, string or map visits finitely many elements
+	if c := li.head.Comment; strings.HasPrefix(c, "rangeindex.loop") || strings.HasPrefix(c, "rangeiter.loop") {
+		return false
+	}
 	blocks := func(b *ssa.BasicBlock) bool {
 		for _, in := range b.Instrs {
-			switch x := in.(type) {
-			case *ssa.Select:
-				if x.Blocking {
-					return true
-				}
-			case *ssa.UnOp:
-				if x.Op.String() == "<-" {
-					return true
-				}
-			case *ssa.Call:
-				if sc := x.Call.StaticCallee(); sc != nil && (sc.String() == "time.Sleep") {
-					return true
-				}
+			if blockingInstr(in, 0) {
+				return true
 			}
 		}
 		return false
